@@ -82,7 +82,7 @@ pub fn needs_positive(k: &Kind) -> bool {
 pub fn spec_needs_positive(s: &Spec) -> bool {
     match s {
         Spec::Un(k, i) => needs_positive(k) || spec_needs_positive(i),
-        Spec::Tap(_, i) => spec_needs_positive(i),
+        Spec::Tap(_, i) | Spec::Warm(_, i) => spec_needs_positive(i),
         Spec::Bin(_, a, b) => spec_needs_positive(a) || spec_needs_positive(b),
         Spec::Ma(_, _, v, m) => spec_needs_positive(v) || spec_needs_positive(m),
         _ => false,
